@@ -6,6 +6,11 @@ usage: confirm_seed.py <src dir with patch.diff, demo.py, notes.md> <property> <
 Steps (as the brief prescribes): git -C /repo apply <patch>; repository tests;
 the registered quick command; git -C /repo checkout -- . (always, even on error).
 Nothing is ever committed in /repo.
+
+With CONFIRM_SCRATCH=1 the same steps run against a scratch copy of /repo's
+working tree under /var/tmp (patch -p1, VERIF_REPO=<copy>, removed afterwards)
+instead of /repo itself - for use while a background soak (`vp run`) is reading
+/repo; the demo is then also run here, before and after the patch.
 """
 import glob
 import json
@@ -22,7 +27,69 @@ def sh(cmd, **kw):
     return subprocess.run(cmd, shell=True, capture_output=True, text=True, **kw)
 
 
+def scratch_main():
+    sys.path.insert(0, VERIF)
+    from sim import selftest
+    from sim.launcher import TIERS
+
+    src, prop, name, what, needs = sys.argv[1:6]
+    patch = os.path.abspath(os.path.join(src, "patch.diff"))
+    demo = os.path.abspath(os.path.join(src, "demo.py"))
+    dest = os.path.join(VERIF, "seeded", name)
+    env = dict(os.environ, PYTHONDONTWRITEBYTECODE="1")
+
+    def run_demo(d):
+        r = subprocess.run(["timeout", "300", "/venv/bin/python", demo], cwd=d, env=dict(env, PYTHONPATH=d), capture_output=True, text=True)
+        return r.returncode, (r.stdout + r.stderr).strip().splitlines()[-1:]
+
+    clean = selftest.make_scratch()
+    try:
+        demo_clean = run_demo(clean)
+    finally:
+        shutil.rmtree(clean, ignore_errors=True)
+    d = selftest.make_scratch(patch)
+    try:
+        ok, tests = selftest.run_repo_tests(d)
+        demo_patched = run_demo(d)
+        rc, log, wall = selftest.run_check_on(d, prop, TIERS[prop]["quick"][0])
+        os.makedirs(dest, exist_ok=True)
+        kept = []
+        for rp in sorted(glob.glob(os.path.join(d, "_replays", prop, "*.json")))[:2]:
+            shutil.copy(rp, dest)
+            kept.append(os.path.basename(rp))
+    finally:
+        shutil.rmtree(d, ignore_errors=True)
+    sigs = {}
+    for m in re.finditer(r"violation (C\d+/\S+): (\d+) histories", log):
+        sigs[m.group(1)] = int(m.group(2))
+    for fn in ("patch.diff", "demo.py", "notes.md"):
+        if os.path.exists(os.path.join(src, fn)):
+            shutil.copy(os.path.join(src, fn), dest)
+    meta = {
+        "id": name.split("-")[0],
+        "property": prop,
+        "what": what,
+        "needs_to_manifest": needs,
+        "author": "independent sub-agent given only the property text and a scratch worktree of /repo; nothing from /verif",
+        "confirmed": {
+            "repository_tests_with_patch": ("pass: " if ok else "FAIL: ") + tests,
+            "demo": "PYTHONPATH=<scratch copy> /venv/bin/python demo.py : exit %d on the clean copy (%s), exit %d with the patch (%s)" % (demo_clean[0], " ".join(demo_clean[1])[:120], demo_patched[0], " ".join(demo_patched[1])[:200]),
+            "check_cmd": "./check %s quick (VERIF_SEED=%s, VERIF_REPO=<scratch copy of /repo's working tree with the patch applied>, because a background soak was reading /repo)" % (prop, os.environ.get("VERIF_SEED", "0")),
+            "check_exit": rc,
+            "violation_lines": len(re.findall(r"^VIOLATION ", log, re.M)),
+            "signatures_histories": sigs,
+            "replays_kept": kept,
+        },
+    }
+    with open(os.path.join(dest, "meta.json"), "w") as f:
+        json.dump(meta, f, indent=1)
+    print("%s: tests [%s] demo clean=%d patched=%d; check exit=%d, %d VIOLATION lines, %d signatures: %s" % (name, tests, demo_clean[0], demo_patched[0], rc, meta["confirmed"]["violation_lines"], len(sigs), "; ".join(sorted(sigs)[:6])))
+    return 0
+
+
 def main():
+    if os.environ.get("CONFIRM_SCRATCH"):
+        return scratch_main()
     src, prop, name, what, needs = sys.argv[1:6]
     patch = os.path.join(src, "patch.diff")
     st = sh("git -C /repo status --porcelain").stdout.strip()
